@@ -201,7 +201,14 @@ func (ex *Exec) callContract(st *State, fr *Frame, c ssa.Instruction, fn *ssa.Fu
 		}
 	}
 	env.old = pre
-	for _, en := range fc.Ensures {
+	for i, en := range fc.Ensures {
+		lab := fmt.Sprint(i + 1)
+		if en.Label != "" {
+			lab = en.Label
+		}
+		if knownFalsePost[funcKey(fn)+"/post:"+lab] {
+			continue // a known finding: this postcondition does not hold, so callers do not get it
+		}
 		ex.assumeClauseLenient(st, env, en)
 	}
 	return []Outcome{{st, rets}}
